@@ -13,28 +13,44 @@ LEVEL_TEXT = ('Partial. Proved (Coq, for every BC mask, connectivity, number of 
               'it is the restriction to the unknown dofs of the global scatter; the block integral of integrate_over_block is the sum over the listed elements of their values against their OWN volumes, invariant under reordering of the block list, additive over partitions (gather model tied by exact correspondence); with symmetric blocks it is symmetric and equals '
               'P^T(sum_e G_e^T K_e G_e)P; without symmetry it is the transpose (refuted with a witness); per-block scatter of states / element '
               'Hessians and per-block energy sums reproduce the unblocked results when the blocks cover / partition the elements. '
-              'Not proved: that jax.hessian of the element energy is its Hessian and the chain rule through create_field -- that half is compared on '
-              'the real code on every run (assembled K vs dense jax.hessian of the total energy: plane strain / axisymmetric, single / multi block, '
-              'static / Newmark). Findings F5 (pressure-projection factories were dead code) and F6 (Newmark element Hessians were evaluated at U-UPredicted) are fixed in /repo and are replayed as regressions; the static reference table of Mechanics.py is now proved to resolve (C02_refs_resolve).')
+              'NEW (round 3): the chain rule through create_field and the element gathers is proved for ARBITRARY element energies (Coquelicot, no polynomial restriction): '
+              'if every symmetric element block K_e holds the second directional derivatives of its element energy E_e at the current local field U[conn_e,:] '
+              '(d/ds d/dt E_e(x+sa+tb) = a^T K_e b), then d/ds d/dt E(create_field(Uu+sv+tw, Ubc)) exists and equals v^T K w with K the assembled matrix '
+              '(C02_hessian_chain), entry (i,j) is the mixed partial derivative (C02_hessian_entries), the same along single lines with Derive_n 2 '
+              '(C02_hessian_chain_line), and unconditionally for quadratic element energies (C02_hessian_quadratic). '
+              'NEW: the multi-block clause as one theorem over a model of the three per-block loops of Mechanics (C02_multiblock_same_material): block id lists that '
+              'partition the elements (any order) with the same material on every block give the single-block energy, state update, element Hessians and assembled matrix; '
+              'the loop model is tied by an exact stream through the real Mechanics._compute_*_multi_block with integer data and several materials. '
+              'Not proved: that jax.hessian(integrate_element_from_local_field) returns those second directional derivatives (JAX autodiff) and that the real '
+              'energies are twice differentiable at the state -- compared on the real code on every run (assembled K vs dense jax.hessian of the total energy, '
+              'v^T K w vs forward-over-forward jvp(jvp(.)), total energy vs sum of element energies of U[conn,:], element block vs Hessian of the element energy: '
+              'plane strain / axisymmetric, single / multi block, static / Newmark). Findings F5 (pressure-projection factories were dead code) and F6 (Newmark element Hessians were evaluated at U-UPredicted) are fixed in /repo and are replayed as regressions; the static reference table of Mechanics.py is proved to resolve (C02_refs_resolve).')
 TECHNIQUE = 'Coq proof over a hand-written model of the COO assembly and block scatter (shares the C14 DofManager model); exact vm_compute correspondence; K-vs-jax.hessian comparison on the real mechanics functions'
 GEN = ['Refs_Mechanics']
-TARGETS = ['model/M_C14_Dof.vo', 'model/M_C02_Assembly.vo', 'proofs/L_C14.vo', 'proofs/L_C02.vo', 'gen/Refs_Mechanics.vo', 'proofs/L_C02_refs.vo']
-COQ_FILES = ['model/M_C14_Dof.v', 'model/M_C02_Assembly.v', 'proofs/L_C14.v', 'proofs/L_C02.v', 'proofs/L_C02_refs.v', 'props/P_C02.v']
+TARGETS = ['model/M_C14_Dof.vo', 'model/M_C02_Assembly.vo', 'model/M_C02_Energy.vo', 'model/M_C02_MultiBlock.vo', 'proofs/L_C14.vo', 'proofs/L_C02.vo',
+           'gen/Refs_Mechanics.vo', 'proofs/L_C02_refs.vo', 'proofs/L_C02_hess.vo', 'proofs/L_C02_mb.vo']
+COQ_FILES = ['model/M_C14_Dof.v', 'model/M_C02_Assembly.v', 'model/M_C02_Energy.v', 'model/M_C02_MultiBlock.v', 'proofs/L_C14.v', 'proofs/L_C02.v',
+             'proofs/L_C02_refs.v', 'proofs/L_C02_hess.v', 'proofs/L_C02_mb.v', 'props/P_C02.v']
 TRUSTED = ['Coq 8.16.1 kernel + vm_compute (no native_compute)',
            'hand-written model of assemble_sparse_stiffness_matrix (boolean-mask ravel order, coo_matrix duplicate summation) and of the '
            '.at[elemIds].set block loops, and of the gather semantics of FunctionSpace.evaluate_on_block / integrate_over_block; tied to the source only by the exact correspondence on seeded random integer data',
-           'JAX autodiff: jax.hessian of the element / total energy is taken to be the true second derivative (both sides of the L2 comparison use it)',
+           'JAX autodiff: jax.hessian of the element / total energy is taken to be the true second derivative (both sides of the L2 comparison use it; the new directional probe uses jvp-over-jvp, a different autodiff path)',
+           'model/M_C02_MultiBlock.v: the per-block loops as folds of integrate_over_block / scatter over (elemIds, material) pairs; per-element kernels (energy density, state update, element Hessian on the element own rows) are parameters, fed from the implementation in the correspondence',
+           'model/M_C02_Energy.v: total energy = sum over elements of an element energy of the local field U[conn,:] (tied by the exact local-field stream and the L2 decomposition probe)',
+           'Coquelicot 3.x (Derive, is_derive, locally) for the statement of second directional derivatives',
            'correspondence harness (case generators, tolerance 1e-9 * max(1, |H|_inf) for K vs H and symmetry)']
 ASSUMPTIONS = ['node ids in range, rectangular connectivity, components < number of fields (as C14)',
                'element blocks are symmetric (true for autodiff Hessians) for the symmetry / P^T K P theorems; stated as a hypothesis',
-               'chain rule through the affine map create_field and correctness of jax.hessian: not proved, compared numerically',
+               'hypothesis `represents` of C02_hessian_chain: each element block holds the second directional derivatives of the element energy at the current local field (what jax.hessian is trusted to deliver; material must be twice differentiable there) -- not proved, compared numerically',
+               'the Hessian is stated as the matrix of mixed second directional derivatives (Gateaux), not as a Frechet derivative',
                'theorems over exact reals / integers; binary64 summation order differences are covered by the L2 tolerance']
-RULE = ('gather: integer-valued FunctionSpace arrays (every per-element array distinct per element) through the real evaluate_on_block / integrate_over_block with blocks given as slice(None), python slices, permuted / reversed consecutive ranges, unsorted and sorted subsets, vs the model (exact); L1 twins: a second assembly on the same mesh with another DofManager of equal counts, then the first one again. L1: seeded random connectivity tables / small structured meshes, 1..3 fields, the C14 BC patterns, random NON-symmetric integer element blocks '
+RULE = ('mb: integer function-space arrays, 1..3 polynomial integer materials, blocks partitioning (sometimes not covering) the elements in arbitrary order through the real Mechanics._compute_*_multi_block vs model/M_C02_MultiBlock.v (exact; per-element kernel values are the reference oracle), and vs the real single-block functions when all blocks carry one material. local: seeded random connectivity / small structured meshes, 1..3 fields, the C14 BC patterns, integer Uu, Ubc, v, t through the real DofManager.create_field and U[conn,:] vs model/M_C02_Energy.v (exact). gather: integer-valued FunctionSpace arrays (every per-element array distinct per element) through the real evaluate_on_block / integrate_over_block with blocks given as slice(None), python slices, permuted / reversed consecutive ranges, unsorted and sorted subsets, vs the model (exact); L1 twins: a second assembly on the same mesh with another DofManager of equal counts, then the first one again. L1: seeded random connectivity tables / small structured meshes, 1..3 fields, the C14 BC patterns, random NON-symmetric integer element blocks '
         'through the real DofManager + assemble_sparse_stiffness_matrix vs the model (exact); random .at[ids].set block loops vs the model. '
         'L2: small distorted structured meshes (order 1..2, shuffled element numbering), random BC node sets, random displacement; materials '
         'neo-Hookean, linear elastic, J2 (state produced by a previous load step); plane strain / axisymmetric; single / multi block; static / Newmark. '
         'non-trivial = has both constrained and unknown dofs; distinct = distinct configurations')
 IMPORTS = ['From OV.model Require Import M_C14_Dof M_C02_Assembly.']
+MB_IMPORTS = ['From OV.model Require Import M_C14_Dof M_C02_Assembly M_C02_MultiBlock.']
 
 RTOL = 1e-9
 LAST = {}
@@ -168,6 +184,195 @@ def run_scatter(case):
     return [int(x) for x in onp.asarray(arr)]
 
 
+# ============================================================================= local fields U[conn,:] and the affine map create_field (model/M_C02_Energy.v)
+
+def gen_local(ctx):
+    r = ctx.rng('local')
+    cases = []
+    for i in range(ctx.n(8, 120)):
+        dim = r.choice([1, 2, 2, 3])
+        if i % 4 == 0:
+            case = dict(src='structured', Nx=r.randrange(2, 4), Ny=r.randrange(2, 4), order=r.choice([1, 1, 2]), dim=dim, nomodel=True)
+        else:
+            npe = r.choice([3, 3, 6])
+            nNodes = r.randrange(2, 13)
+            nEl = r.randrange(1, 7 if npe == 3 else 4)
+            conns = [(r.sample(range(nNodes), npe) if nNodes >= npe and r.random() < 0.8 else [r.randrange(nNodes) for _ in range(npe)])
+                     for _ in range(nEl)]
+            case = dict(src='random', nNodes=nNodes, conns=conns, dim=dim)
+        case['kind'] = D.KINDS[(i + 5) % len(D.KINDS)]
+        case['bcseed'] = r.randrange(1 << 30)
+        cases.append(case)
+    return cases
+
+
+def run_local(case):
+    """integer fields through the real DofManager.create_field; the element's local field is read the way
+    Mechanics.compute_element_stiffness_from_global_fields reads it (U[elConn,:]); the affine identity that
+    C02_hessian_chain rests on, create_field(Uu + t v, Ubc) = create_field(Uu, Ubc) + t create_field(v, 0), is evaluated exactly"""
+    import numpy as onp
+    import jax.numpy as np
+    import optimism  # noqa: F401
+    from optimism import FunctionSpace
+    dim = case['dim']
+    fs, nNodes, conns, ebcs = D.build(case)
+    dm = FunctionSpace.DofManager(fs, dim, [FunctionSpace.EssentialBC(nodeSet=n, component=c) for (n, _, c) in ebcs])
+    r = random.Random(case['bcseed'] ^ 0x10ca1)
+    nu, nb = int(dm.get_unknown_size()), int(dm.get_bc_size())
+    Uu = [r.randrange(-20, 21) for _ in range(nu)]
+    Ubc = [r.randrange(-20, 21) for _ in range(nb)]
+    v = [r.randrange(-9, 10) for _ in range(nu)]
+    t = r.choice([-3, -1, 2, 5])
+    f = lambda l: np.array(onp.array(l, dtype=float))
+    ints = lambda a: [int(x) for x in onp.asarray(a).ravel()]
+    U = dm.create_field(f(Uu), f(Ubc))
+    local = []
+    for elConn in onp.asarray(fs.mesh.conns):
+        local += ints(U[elConn, :])
+    lhs = ints(dm.create_field(f(Uu) + t * f(v), f(Ubc)))
+    rhs = ints(U + t * dm.create_field(f(v), f([0] * nb)))
+    return dict(nNodes=nNodes, dim=dim, conns=conns, ebcs=ebcs, Uu=Uu, Ubc=Ubc, v=v, t=t, local=local, lhs=lhs, rhs=rhs, nu=nu, nb=nb)
+
+
+def local_expr(o):
+    zl = D.zl
+    ebcs = '[' + '; '.join('(%s, (%d))' % (zl(nodes), comp) for (_, nodes, comp) in o['ebcs']) + ']'
+    conns = '[' + '; '.join(zl(c) for c in o['conns']) + ']'
+    return 'run_local_case (%d) (%d) %s %s %s %s %s (%d)' % (o['nNodes'], o['dim'], ebcs, conns, zl(o['Uu']), zl(o['Ubc']), zl(o['v']), o['t'])
+
+
+# ============================================================================= the three per-block loops of Mechanics (model/M_C02_MultiBlock.v)
+
+def gen_mb(ctx):
+    r = ctx.rng('mb')
+    out = []
+    for i in range(ctx.n(4, 60)):
+        ne = r.randrange(2, 8)
+        nmat = r.randrange(1, 4)
+        ids = list(range(ne))
+        r.shuffle(ids)
+        same = (i % 2 == 0)                                   # the theorem's case: every block carries the same material
+        k = r.randrange(1 if same else 2, min(3, ne) + 1)
+        cuts = sorted(r.sample(range(1, ne), k - 1))
+        blocks = [ids[a:b] for a, b in zip([0] + cuts, cuts + [ne])]
+        if not same:                                          # several materials: at least two different ones
+            nmat = max(2, nmat)
+        mats = [0] * k if same else [r.randrange(nmat) for _ in range(k)]
+        if not same and mats[0] == mats[1]:
+            mats[1] = (mats[0] + 1) % nmat
+        if i % 5 == 4 and len(blocks[-1]) > 1:                # not covering: uncovered elements keep the base arrays
+            blocks[-1] = blocks[-1][:-1]
+        out.append(dict(ne=ne, nq=r.randrange(1, 3), nNodes=r.randrange(4, 9), nmat=max(nmat, 1), blocks=blocks, mats=mats, seed=r.randrange(1 << 30)))
+    return out
+
+
+def _mb_material(k):
+    import jax.numpy as np
+    a, b, c = 1 + k, 2 - k, 3 + 2 * k
+    psi = lambda g, Q, dt: a * g[0, 0] * g[1, 1] + b * g[0, 1] ** 2 + c * g[1, 0] * Q[0] + (k + 1) * g[0, 0] ** 3
+    new = lambda g, Q, dt: np.array([Q[0] + (k + 2) * g[0, 0] + g[1, 1]])
+    return types.SimpleNamespace(compute_energy_density=psi, compute_state_new=new, compute_initial_state=lambda: np.zeros(1))
+
+
+def run_mb(case):
+    """integer-valued function-space arrays and polynomial integer 'materials' through the real per-block loops
+    Mechanics._compute_strain_energy_multi_block / _compute_updated_internal_variables_multi_block /
+    _compute_element_stiffnesses_multi_block; per element and material the reference kernel values come from the element's own rows
+    (energy densities and new states recomputed in numpy, element Hessians from the real per-element Mechanics.element_hess_func)"""
+    import numpy as onp
+    import jax.numpy as np
+    import optimism  # noqa: F401
+    from optimism import FunctionSpace, Mesh, QuadratureRule, Mechanics, Interpolants
+    rs = onp.random.RandomState(case['seed'] % (1 << 31))
+    ne, nq, nN = case['ne'], case['nq'], case['nNodes']
+    shapes = rs.randint(-2, 3, size=(ne, nq, 3)).astype(float)
+    grads = rs.randint(-2, 3, size=(ne, nq, 3, 2)).astype(float)
+    vols = rs.randint(1, 6, size=(ne, nq)).astype(float)
+    states = rs.randint(-5, 6, size=(ne, nq, 1)).astype(float)
+    coords = rs.randint(-5, 6, size=(nN, 2)).astype(float)
+    conns = rs.randint(0, nN, size=(ne, 3))
+    U = rs.randint(-3, 4, size=(nN, 2)).astype(float)
+    blocks = {'b%d' % i: np.array(onp.array(b, dtype=int)) for i, b in enumerate(case['blocks'])}
+    mesh = Mesh.Mesh(np.array(coords), np.array(conns), np.arange(nN), Interpolants.make_parent_element_2d(degree=1), None, blocks, None, None)
+    fs = FunctionSpace.FunctionSpace(np.array(shapes), np.array(vols), np.array(grads), mesh, QuadratureRule.create_quadrature_rule_on_triangle(1), False)
+    mats = [_mb_material(k) for k in range(case['nmat'])]
+    models = {'b%d' % i: mats[m] for i, m in enumerate(case['mats'])}
+    modify = FunctionSpace.default_modify_element_gradient
+    Uj, Sj = np.array(U), np.array(states)
+    ints = lambda a: [int(round(float(x))) for x in onp.asarray(a).ravel()]
+    energy = float(Mechanics._compute_strain_energy_multi_block(fs, Uj, Sj, 0.0, models, modify))
+    snew = onp.asarray(Mechanics._compute_updated_internal_variables_multi_block(fs, Uj, Sj, 0.0, models, modify))
+    hess = onp.asarray(Mechanics._compute_element_stiffnesses_multi_block(Uj, Sj, 0.0, fs, models, modify))
+    exact = bool(onp.all(snew == onp.round(snew)) and onp.all(hess == onp.round(hess)) and energy == round(energy))
+    # per element, per material: reference kernel values from the element's own rows
+    ek, sk, hk = [], [], []
+    for e in range(ne):
+        ue = U[conns[e]]
+        eke, ske, hke = [], [], []
+        for k, m in enumerate(mats):
+            vals, news = [], []
+            for q in range(nq):
+                g = onp.tensordot(ue, grads[e, q], axes=[0, 0])
+                vals.append(int(m.compute_energy_density(g, states[e, q], 0.0)))
+                news.append(int(onp.asarray(m.compute_state_new(g, states[e, q], 0.0))[0]))
+            L = Mechanics.strain_energy_density_to_lagrangian_density(m.compute_energy_density)
+            He = Mechanics.element_hess_func(np.array(ue), np.array(coords[conns[e]]), np.array(states[e]), 0.0, np.array(shapes[e]), np.array(grads[e]),
+                                             np.array(vols[e]), L, modify)
+            eke.append(vals)
+            ske.append(news)
+            hke.append(ints(He))
+        ek.append(eke)
+        sk.append(ske)
+        hk.append(hke)
+    out = dict(blocks=case['blocks'], mats=case['mats'], ek=ek, sk=sk, hk=hk, vl=[[int(v) for v in row] for row in vols],
+               base=[[int(v) for v in row.ravel()] for row in states], energy=energy, snew=ints(snew), hess=ints(hess), exact=exact, single=None)
+    covered = sorted(i for b in case['blocks'] for i in b) == list(range(ne))
+    if covered and len(set(case['mats'])) == 1:
+        m = mats[case['mats'][0]]
+        L = Mechanics.strain_energy_density_to_lagrangian_density(m.compute_energy_density)
+        out['single'] = dict(energy=float(Mechanics._compute_strain_energy(fs, Uj, Sj, 0.0, m.compute_energy_density, modify)),
+                             snew=ints(Mechanics._compute_updated_internal_variables(fs, Uj, Sj, 0.0, m.compute_state_new, modify)),
+                             hess=ints(Mechanics._compute_element_stiffnesses(Uj, Sj, 0.0, fs, m.compute_energy_density, modify)))
+    return out
+
+
+def mb_conclusions(o):
+    """C02_multiblock_same_material on the implementation (integers: exact)"""
+    bad = []
+    if not o['exact']:
+        bad.append('integer data produced non-integer results')
+    # every element's block is the Hessian of the element energy of ITS OWN block's material, its new state that material's update, and
+    # the energy the sum of the listed elements' energies (per-element reference kernels; several materials)
+    ne, nh, ns = len(o['vl']), len(o['hk'][0][0]), len(o['base'][0])
+    for b, m in zip(o['blocks'], o['mats']):
+        for e in b:
+            if o['hess'][e * nh:(e + 1) * nh] != o['hk'][e][m]:
+                bad.append('element %d (block material %d): the multi-block element Hessian is not the Hessian of the element energy of its own material' % (e, m))
+            if o['snew'][e * ns:(e + 1) * ns] != o['sk'][e][m]:
+                bad.append('element %d (block material %d): the multi-block state update is not the update of its own material' % (e, m))
+    want = sum(a * v for b, m in zip(o['blocks'], o['mats']) for e in b for a, v in zip(o['ek'][e][m], o['vl'][e]))
+    if o['energy'] != float(want):
+        bad.append('multi-block energy %r is not the sum %d of the element energies of the blocks\' own materials' % (o['energy'], want))
+    bad = bad[:3]
+    sg = o['single']
+    if sg is not None:
+        if sg['energy'] != o['energy']:
+            bad.append('multi-block energy %r differs from the single-block energy %r (same material on every block)' % (o['energy'], sg['energy']))
+        if sg['snew'] != o['snew']:
+            bad.append('multi-block state update differs from the single-block one (same material on every block)')
+        if sg['hess'] != o['hess']:
+            bad.append('multi-block element Hessians differ from the single-block ones (same material on every block)')
+    return bad
+
+
+def mb_expr(o):
+    zl = D.zl
+    zll = lambda ll: '[' + '; '.join(zl(x) for x in ll) + ']'
+    elems = '[' + '; '.join('((%s, %s), (%s, %s))' % (zll(o['ek'][e]), zl(o['vl'][e]), zll(o['sk'][e]), zll(o['hk'][e])) for e in range(len(o['vl']))) + ']'
+    zeros = zll([[0] * len(o['hk'][e][0]) for e in range(len(o['vl']))])
+    return 'run_mb_case %s %s %s %s %s' % (elems, zll(o['blocks']), zl(o['mats']), zll(o['base']), zeros)
+
+
 # ============================================================================= gather semantics of evaluate_on_block / integrate_over_block
 
 BLOCK_FORMS = ['slice_none', 'perm_range', 'perm_all', 'unsorted_subset', 'sorted_subset', 'reversed_range', 'single', 'py_slice']
@@ -285,9 +490,10 @@ def gen_l2(ctx):
         cfgs.append(c)
 
     mk('static', material='neohookean', mode='plane strain', order=1, mesh='delaunay')                 # unstructured mesh
-    mk('static', material='neohookean_coupled', mode='axisymmetric', order=2, Nx=2, Ny=3, qdeg=r.choice([3, 4, 5]))
-    mk('static', material='j2', mode='plane strain', order=1)
-    mk('static', material='linear', mode='axisymmetric', order=r.choice([3, 4]), Nx=2, Ny=2, twice=True)   # high order + multi-call history
+    quick = ctx.tier == 'quick'         # the element-energy decomposition probe costs an un-jitted element Hessian: two statics in the quick tier
+    mk('static', material='neohookean_coupled', mode='axisymmetric', order=2, Nx=2, Ny=3, qdeg=r.choice([3, 4, 5]), decomp=not quick)
+    mk('static', material='j2', mode='plane strain', order=1, decomp=not quick)
+    mk('static', material='linear', mode='axisymmetric', order=r.choice([3, 4]), Nx=2, Ny=2, twice=True, decomp=not quick)   # high order + multi-call history
     mk('static', material='linear', mode='plane strain', order=1, Nx=2, Ny=2, bc='none')              # no essential BC at all
     # blocks list their elements in arbitrary order; 'permuted_range': a consecutive id range in non-ascending order
     mk('multiblock', material='neohookean', nblocks=3, Nx=3, Ny=3, blockorder='permuted_range')
@@ -425,6 +631,61 @@ def _cmp(name, K, H, bad, info):
         bad.append('%s: assembled matrix differs from the Hessian of the energy: max|K-H| = %.3g on a scale of %.3g' % (name, dkh, scale))
 
 
+def _directional(name, energy_of_Uu, Uu, K, seed, bad, info):
+    """conclusion of C02_hessian_chain on the implementation: the mixed second directional derivative d/ds d/dt E(Uu + s v + t w)
+    at (0,0) -- forward-over-forward jvp(jvp(.)), a different autodiff path than jax.hessian / the element Hessians -- equals v^T K w"""
+    import numpy as onp
+    import jax
+    import jax.numpy as np
+    rs = onp.random.RandomState((seed ^ 0x5eed) % (1 << 31))
+    K = onp.asarray(K)
+    n = K.shape[0]
+    if n == 0:
+        return
+    worst = 0.0
+    for k in range(2):
+        v, w = rs.standard_normal(n), rs.standard_normal(n)
+        if k == 1:                       # coordinate directions: one entry of the matrix (C02_hessian_entries)
+            i, j = rs.randint(n), rs.randint(n)
+            v, w = onp.eye(n)[i], onp.eye(n)[j]
+        vj, wj = np.array(v), np.array(w)
+        d2 = float(jax.jvp(lambda x: jax.jvp(energy_of_Uu, (x,), (wj,))[1], (Uu,), (vj,))[1])
+        q = float(v @ K @ w)
+        tol = RTOL * max(1.0, float(onp.abs(K).max())) * float(onp.abs(v).sum()) * float(onp.abs(w).sum())
+        worst = max(worst, abs(d2 - q) / tol * RTOL)
+        if not (abs(d2 - q) <= tol):
+            bad.append('%s: second directional derivative d/ds d/dt E(Uu+sv+tw) = %.15g but v^T K w = %.15g (|diff| %.3g > %.3g)'
+                       % (name, d2, q, abs(d2 - q), tol))
+    info['max|d2E(v,w)-vKw| (rel)'] = worst
+
+
+def _decomposition(name, fs, mat, mode, U, q, dt, Etot, Ke, bad, info):
+    """structure assumed by model/M_C02_Energy.v: the total energy is the sum over the elements of
+    integrate_element_from_local_field(U[conn,:], ...) and the e-th element block is the Hessian of exactly that function of the
+    local field (recomputed here with the public pieces, not with the factory's closures)"""
+    import numpy as onp
+    import jax
+    import jax.numpy as np
+    from optimism import Mechanics, FunctionSpace
+    L = Mechanics.strain_energy_density_to_lagrangian_density(mat.compute_energy_density)
+    modify = Mechanics.parse_2D_to_3D_gradient_transformation(mode)
+    conns = fs.mesh.conns
+
+    def elem_energy(elDisp, elCoords, elQ, elShapes, elShapeGrads, elVols):
+        return FunctionSpace.integrate_element_from_local_field(elDisp, elCoords, elQ, dt, elShapes, elShapeGrads, elVols, L, modify)
+    Ee = jax.vmap(elem_energy)(U[conns, :], fs.mesh.coords[conns, :], q, fs.shapes, fs.shapeGrads, fs.vols)
+    tot = float(onp.asarray(Ee).sum())
+    info['|E-sum_e E_e|'] = abs(tot - float(Etot))
+    if abs(tot - float(Etot)) > 1e-11 * max(1.0, abs(float(Etot))):
+        bad.append('%s: total energy %.17g is not the sum %.17g of the element energies of the local fields U[conn,:]' % (name, float(Etot), tot))
+    e = int(onp.random.RandomState(int(abs(float(Etot)) * 1e6) % (1 << 31)).randint(conns.shape[0]))
+    He = onp.asarray(jax.hessian(elem_energy)(U[conns[e], :], fs.mesh.coords[conns[e], :], q[e], fs.shapes[e], fs.shapeGrads[e], fs.vols[e]))
+    d = float(onp.abs(He - onp.asarray(Ke)[e]).max())
+    info['max|K_e-d2E_e|'] = d
+    if not d <= RTOL * max(1.0, float(onp.abs(He).max())):
+        bad.append('%s: element block %d differs from the Hessian of the element energy w.r.t. the local field U[conn,:] by %.3g' % (name, e, d))
+
+
 def run_l2(cfg):
     """-> (list of violated clauses, info dict).  Exceptions of the implementation on valid input are violations too."""
     import numpy as onp
@@ -466,9 +727,14 @@ def run_l2(cfg):
         if cfg['material'] == 'j2':
             q = fns.compute_updated_internal_variables(U0, q, dt)          # an admissible, non-virgin internal state
             info['max_eqps'] = float(onp.asarray(q)[..., 0].max())
-        K = asm(fns.compute_element_stiffnesses(U, q, dt))
+        Ke = fns.compute_element_stiffnesses(U, q, dt)
+        K = asm(Ke)
         H = jax.hessian(lambda x: fns.compute_strain_energy(dm.create_field(x, Ubc), q, dt))(Uu)
-        _cmp('static %s %s order %d' % (cfg['material'], cfg['mode'], cfg['order']), K, H, bad, info)
+        name = 'static %s %s order %d' % (cfg['material'], cfg['mode'], cfg['order'])
+        _cmp(name, K, H, bad, info)
+        _directional(name, lambda x: fns.compute_strain_energy(dm.create_field(x, Ubc), q, dt), Uu, K, cfg['seed'], bad, info)
+        if cfg.get('decomp', True):
+            _decomposition(name, fs, mat, cfg['mode'], U, q, dt, fns.compute_strain_energy(U, q, dt), Ke, bad, info)
         if cfg.get('twice'):
             # multi-call history: the same function objects at a second displacement, and a second assembly with a DIFFERENT
             # DofManager that has the same number of unknowns / constrained dofs and the same array shapes
@@ -519,6 +785,8 @@ def run_l2(cfg):
         K = asm(fns.compute_element_hessians(U, UPred, q, dt))
         H = jax.hessian(lambda x: fns.compute_algorithmic_energy(dm.create_field(x, Ubc), UPred, q, dt))(Uu)
         _cmp('Newmark %s %s UPredicted%s0' % (cfg['material'], cfg['mode'], '!=' if cfg['upred'] else '='), K, H, bad, info)
+        _directional('Newmark %s %s' % (cfg['material'], cfg['mode']), lambda x: fns.compute_algorithmic_energy(dm.create_field(x, Ubc), UPred, q, dt),
+                     Uu, K, cfg['seed'], bad, info)
         if bad and cfg['upred']:
             # signature probe for F6: K is exactly the Hessian of the algorithmic energy at the shifted point U-UPredicted with UPredicted = 0
             Ush = U - UPred
@@ -609,6 +877,42 @@ def correspondence(ctx, model_ok, l2_cfgs=None, do_l1=True):
             for b in gather_conclusions(go):
                 ctx.fail('conclusion', 'block %s (%s): %s' % (go['ids'], gc['form'], b), case=dict(layer='gather', **gc), concrete=True)
         ctx.count('gather_cases', len(gouts))
+    # ---- local fields / affine create_field (exact, integer data): the identity C02_hessian_chain rests on, on the implementation
+    louts = []
+    if do_l1:
+        for lc in gen_local(ctx):
+            ctx.count('evaluations')
+            try:
+                lo = run_local(lc)
+            except Exception as ex:
+                ctx.fail('conclusion', 'DofManager.create_field / U[conn,:] raised %s: %s on a valid input' % (type(ex).__name__, str(ex)[:200]),
+                         case=dict(layer='local', **lc), concrete=True)
+                continue
+            louts.append((lc, lo))
+            if 0 < lo['nb'] and 0 < lo['nu']:
+                distinct.add(('local', lc['bcseed']))
+            if lo['lhs'] != lo['rhs']:
+                ctx.fail('conclusion', 'create_field is not affine in the unknowns: create_field(Uu + %d v, Ubc) = %s... but create_field(Uu, Ubc) + %d create_field(v, 0) = %s...'
+                         % (lo['t'], lo['lhs'][:10], lo['t'], lo['rhs'][:10]), case=dict(layer='local', **lc), concrete=True)
+        ctx.count('local_field_cases', len(louts))
+    # ---- the per-block loops of Mechanics on integer data (exact): C02_multiblock_same_material on the implementation
+    mouts = []
+    if do_l1:
+        for mc in gen_mb(ctx):
+            ctx.count('evaluations')
+            try:
+                mo = run_mb(mc)
+            except Exception as ex:
+                ctx.fail('conclusion', 'Mechanics._compute_*_multi_block raised %s: %s (blocks %s)' % (type(ex).__name__, str(ex)[:200], mc['blocks']),
+                         case=dict(layer='mb', **mc), concrete=True)
+                continue
+            mouts.append((mc, mo))
+            if len(mc['blocks']) > 1:
+                distinct.add(('mb', mc['seed']))
+            for b in mb_conclusions(mo):
+                ctx.fail('conclusion', 'blocks %s materials %s: %s' % (mc['blocks'], mc['mats'], b), case=dict(layer='mb', **mc), concrete=True)
+        ctx.count('multi_block_loop_cases', len(mouts))
+        ctx.count('multi_block_same_material_cases', sum(1 for (_, mo) in mouts if mo['single'] is not None))
     # ---- L2: K vs dense Hessian on the real mechanics functions
     cfgs = l2_cfgs if l2_cfgs is not None else gen_l2(ctx)
     hist = {}
@@ -662,6 +966,28 @@ def correspondence(ctx, model_ok, l2_cfgs=None, do_l1=True):
             nm += 1
             ctx.fail('correspondence', 'gather model and evaluate_on_block/integrate_over_block disagree for block %s (%s): model %s / %s, impl %s / %s'
                      % (go['ids'], gc['form'], str(list(parts[0]))[:80], parts[1], str(go['vals'])[:80], go['integ']), case=dict(layer='gather', **gc))
+    res = C.coq_eval(['From OV.model Require Import M_C14_Dof M_C02_Assembly M_C02_Energy.'], [local_expr(lo) for (_, lo) in louts], 'C02l', shard=60)
+    for (lc, lo), zs in zip(louts, res):
+        parts = D.unpack(zs)
+        ctx.count('model_vs_impl_comparisons', 3)
+        for nm_, m, w in zip(['the local fields U[conn,:].ravel()', 'create_field(Uu + t v, Ubc)', 'create_field(Uu, Ubc) + t create_field(v, 0)'],
+                             parts, [lo['local'], lo['lhs'], lo['rhs']]):
+            if list(m) != list(w):
+                nm += 1
+                ctx.fail('correspondence', 'energy model and implementation disagree on %s (%d nodes, %d fields, %s BCs): model %s... impl %s...'
+                         % (nm_, lo['nNodes'], lo['dim'], lc['kind'], str(list(m))[:100], str(w)[:100]), case=dict(layer='local', **lc))
+                break
+    res = C.coq_eval(MB_IMPORTS, [mb_expr(mo) for (_, mo) in mouts], 'C02m', shard=20)
+    for (mc, mo), zs in zip(mouts, res):
+        parts = D.unpack(zs)
+        ctx.count('model_vs_impl_comparisons', 3)
+        for nm_, m, w in zip(['the block-loop energy', 'the block-loop state update', 'the block-loop element Hessians'], parts,
+                             [[int(mo['energy'])], mo['snew'], mo['hess']]):
+            if list(m) != list(w):
+                nm += 1
+                ctx.fail('correspondence', 'multi-block model and Mechanics._compute_*_multi_block disagree on %s (blocks %s, materials %s): model %s... impl %s...'
+                         % (nm_, mc['blocks'], mc['mats'], str(list(m))[:100], str(w)[:100]), case=dict(layer='mb', **mc))
+                break
     ctx.count('model_vs_impl_mismatches', nm)
 
 
@@ -736,6 +1062,40 @@ def replay(ctx, path):
             bad = ['raised %r' % ex]
         print('implementation now:', bad or 'gather semantics hold')
         return 1 if bad else 0
+    if case.get('layer') == 'local':
+        lc = {k: v for k, v in case.items() if k != 'layer'}
+        try:
+            lo = run_local(lc)
+        except Exception as ex:
+            print('implementation raises:', repr(ex)[:300])
+            return 1
+        affine = lo['lhs'] == lo['rhs']
+        print('create_field affine on the implementation now:', affine)
+        mism = False
+        try:
+            parts = D.unpack(C.coq_eval(['From OV.model Require Import M_C14_Dof M_C02_Assembly M_C02_Energy.'], [local_expr(lo)], 'C02r')[0])
+            mism = [list(p) for p in parts] != [lo['local'], lo['lhs'], lo['rhs']]
+            print('model vs implementation now:', 'DISAGREE' if mism else 'agree')
+        except Exception as ex:
+            print('model could not be evaluated:', str(ex)[:300])
+        return 1 if (mism or not affine) else 0
+    if case.get('layer') == 'mb':
+        mc = {k: v for k, v in case.items() if k != 'layer'}
+        try:
+            mo = run_mb(mc)
+        except Exception as ex:
+            print('implementation raises:', repr(ex)[:300])
+            return 1
+        bad = mb_conclusions(mo)
+        print('multi-block = single-block on the implementation now:', bad or 'holds')
+        mism = False
+        try:
+            parts = D.unpack(C.coq_eval(MB_IMPORTS, [mb_expr(mo)], 'C02r')[0])
+            mism = [list(p) for p in parts] != [[int(mo['energy'])], mo['snew'], mo['hess']]
+            print('model vs implementation now:', 'DISAGREE' if mism else 'agree')
+        except Exception as ex:
+            print('model could not be evaluated:', str(ex)[:300])
+        return 1 if (bad or mism) else 0
     if case.get('layer') == 'scatter':
         g = run_scatter(case)
         zl = D.zl
